@@ -11,13 +11,32 @@ GUARD_STEPS = 250
 RULE = ('each run = one declared pair (weaker L\', stronger L) read from Meta.extension_of through the registry (every pair gets '
         'a floor share; 20% of runs use a pair from the transitive closure) and one argument in the vocabulary of L\' (no modal '
         'operator unless L\' is modal, no quantifier unless L\' is quantified; 40% mutated library examples, biased to arguments '
-        'L\' proves), proved in L\' and in L under 2 independent seeded configurations each. If any run in L\' is valid, no run '
+        'L\' proves; 12% deep unary modal chains, 15% quantifier-witness-at-another-world arguments for modal quantified L\'), proved in L\' and in L under 2 independent seeded configurations each. Every 6th run is a slice of a systematic sweep of all unary modal chains (length <= 6, thorough <= 7) x 3 kernels x 2 conclusions on D -> T, the one declared pair whose rule sets are not nested. If any run in L\' is valid, no run '
         'in L may be refuted by a limit-free open branch, and on the propositional fragment every verdict in L must be valid. '
         'distinct_nontrivial = distinct (pair, argument) with a valid verdict in the weaker logic')
 ASSUMPTIONS = [
     'limit-only outcomes are not verdicts',
     'a violated pair is attributed to a root cause with the reference semantics R1 (which side is wrong)',
 ]
+
+SWEEP_EVERY = 6
+SWEEP_PAIR = ('D', 'T')
+def sweep_members(tier):
+    "Unary modal chains (Necessity/Possibility/Negation prefixes) x kernel x conclusion."
+    out = []
+    for length in range(1, 7 if tier == 'quick' else 8):
+        for code in range(3 ** length):
+            for ki in (0, 2, 3):
+                for ck in (0, 1):
+                    out.append((length, code, ki, ck))
+    return out
+
+def sweep_case(member):
+    length, code, ki, ck = member
+    a, b = ('A', 0, 0), ('A', 1, 0)
+    prem = proofwl.modal_prefix(code, length, proofwl._deep_kernels()[ki])
+    conc = b if ck == 0 else ('O', 'Necessity', (('O', 'Possibility', (a,)),))
+    return [prem], conc
 
 def plan(tier):
     return dict(runs=2400 if tier == 'quick' else 40000, timeout=300 if tier == 'quick' else 3600)
@@ -50,7 +69,11 @@ def make_case(ctx):
     else:
         weaker, stronger = direct[(ctx.index // SALTS) % len(direct)]
     wsem = refsem.get(weaker)
-    frag = None
+    r = rng.random()
+    if wsem.modal and r < 0.12:
+        return (weaker, stronger) + proofwl.deep_modal_template(rng)
+    if wsem.modal and wsem.quantified and r < 0.27:
+        return (weaker, stronger) + proofwl.witness_worlds_template(rng)
     prems, conc = proofwl.gen_case(rng, weaker, p_example=0.4)
     # restrict to the weaker logic's vocabulary
     for _ in range(10):
@@ -62,9 +85,9 @@ def make_case(ctx):
         prems, conc = lexgen.gen_argument(rng, lexgen.Profile(rng))
     return weaker, stronger, prems, conc
 
-def cfgs_for(srng, logic, prems, conc):
+def cfgs_for(srng, logic, prems, conc, n=2):
     out = []
-    for k in range(2):
+    for k in range(n):
         opts = dict(proofwl.ALL_OPT_COMBOS[srng.randrange(4)])
         opts['is_build_models'] = True
         opts['max_steps'] = GUARD_STEPS
@@ -72,14 +95,14 @@ def cfgs_for(srng, logic, prems, conc):
             cache=srng.choice(proofsim.CACHE_SIZES), drive=srng.choice(('build', 'step'))))
     return out
 
-def judge(ctx, weaker, stronger, prems, conc, record=True):
+def judge(ctx, weaker, stronger, prems, conc, record=True, ncfg=2):
     srng = ctx.rng('schedule')
-    wr = [(c, proofsim.run(c)) for c in cfgs_for(srng, weaker, prems, conc)]
+    wr = [(c, proofsim.run(c)) for c in cfgs_for(srng, weaker, prems, conc, ncfg)]
     sr = None
     arg = lexgen.argstr(prems, conc)
     wvalid = [(c, r) for c, r in wr if r.outcome == 'valid']
     if wvalid:
-        sr = [(c, proofsim.run(c)) for c in cfgs_for(srng, stronger, prems, conc)]
+        sr = [(c, proofsim.run(c)) for c in cfgs_for(srng, stronger, prems, conc, ncfg)]
     ctx.log(weaker, stronger, arg, [r.outcome for c, r in wr], None if sr is None else [r.outcome for c, r in sr])
     if record:
         ctx.count('evaluations', len(wr) + (len(sr) if sr else 0))
@@ -102,12 +125,24 @@ def judge(ctx, weaker, stronger, prems, conc, record=True):
             # fails is the declaration that one extends the other
             key = 'declared-pair-does-not-hold|%s->%s' % (weaker, stronger)
             why = 'R1 can fault neither verdict within its bounds: the declared extension itself does not hold for this argument'
-        spec = dict(weaker=weaker, stronger=stronger, prems=[lexgen.to_json(p) for p in prems], conc=lexgen.to_json(conc), argstr=arg)
+        spec = dict(weaker=weaker, stronger=stronger, prems=[lexgen.to_json(p) for p in prems], conc=lexgen.to_json(conc), argstr=arg, ncfg=ncfg)
         ctx.violation(ID + '/extension', 'extension|' + key,
             '%s proves %s but its declared extension %s refutes it; %s' % (weaker, arg, stronger, why), spec)
 
 def run(ctx):
+    if ctx.index % SWEEP_EVERY == SWEEP_EVERY - 1:
+        # systematic sweep on the one declared pair whose rule sets are not nested (the serial
+        # rule of D is replaced, not inherited, by the reflexive rule of T)
+        members = sweep_members(ctx.tier)
+        nsweep = max(1, plan(ctx.tier)['runs'] // SWEEP_EVERY)
+        per = -(-len(members) // nsweep)
+        j = ctx.index // SWEEP_EVERY
+        for m in members[j * per:(j + 1) * per]:
+            prems, conc = sweep_case(m)
+            ctx.count('sweep_members')
+            judge(ctx, SWEEP_PAIR[0], SWEEP_PAIR[1], prems, conc, ncfg=1)
+        return
     judge(ctx, *make_case(ctx))
 
 def replay(ctx, spec):
-    judge(ctx, spec['weaker'], spec['stronger'], [lexgen.from_json(p) for p in spec['prems']], lexgen.from_json(spec['conc']), record=False)
+    judge(ctx, spec['weaker'], spec['stronger'], [lexgen.from_json(p) for p in spec['prems']], lexgen.from_json(spec['conc']), record=False, ncfg=spec.get('ncfg', 2))
